@@ -59,6 +59,7 @@ func init() {
 }
 
 func runC31(c *Ctx) {
+	c31Cleanup(c)
 	mT := "(*private/revcache/memrevcache.memRevCache)"
 	zc := "(*zgo.at/zcache/v2.cache[private/revcache.Key, *pkg/private/ctrl/path_mgmt.RevInfo])"
 	rT := "(*pkg/private/ctrl/path_mgmt.RevInfo)"
